@@ -11,7 +11,7 @@ from vcommon import *
 PROP = "C12"
 HERE = os.path.dirname(os.path.abspath(__file__))
 TZS = ["UTC", "Asia/Tokyo", "America/Los_Angeles", "Pacific/Kiritimati", "XYZ-14", "ABC+11:30", "Europe/London"]
-KNOBS = ["clock", "tz", "mtime", "heap", "pid", "tmpname", "stack", "envvars", "cwd", "fds", "perm", "ids", "stdin", "links"]
+KNOBS = ["clock", "tz", "mtime", "heap", "pid", "tmpname", "stack", "envvars", "cwd", "fds", "perm", "ids", "stdin", "links", "proc"]
 TIMEOUT = 10
 TIME_MACROS = re.compile(r"__DATE__|__TIME__|__TIMESTAMP__")
 
@@ -73,6 +73,7 @@ def gen_env(r):
             "tmpname": "".join(r.pick("abcdefghijklmnopqrstuvwxyzABCDEFGHIJKLMNOPQRSTUVWXYZ0123456789") for _ in range(6)),
             "stack": r.pick([r.range(0, 4000), r.range(0, 120000), r.range(60000, 250000)]),   # bytes of environment: moves the stack by up to 250 KB
             "stdin": [r.pick(["pipe", "file", "file"]), r.pick([0, 0, 1, 17, 4096, 70000])],
+            "proc": [r.below(2), r.pick([0o022, 0o077, 0, 0o777])],   # SIGPIPE inherited as ignored; umask
             "links": r.below(3),   # how a header that duplicates another one exists: a copy, a hard link, a symbolic link
             "cwd": "cw" + "".join(r.pick("abcdefghij_") for _ in range(r.pick([1, 3, 8, 40, 120]))),
             "fds": r.pick([0, 0, 1, 3, 17]),
@@ -438,12 +439,44 @@ def gen_case(seed, src, own, tests, avail=None):
     if same_env:
         e2 = json.loads(json.dumps(e1))
     case = {"seed": seed, "input": os.path.relpath(path, src), "mutated": mutated, "mut_seed": r.u64(), "opts": opts, "a": ra, "b": rb, "e1": e1, "e2": e2}
+    if r.below(6) == 0:
+        case["shape"] = [r.range(1, 12), r.below(1000)]    # how the bytes of the file end / are laid out (see reshape)
     if gen_text is not None:
         case["input"] = "test/generated_constexpr.c"
         case["text"] = gen_text
     if aux:
         case["aux"] = aux
     return case
+
+
+def reshape(text, shape):
+    """the same program in another byte layout: the reader's buffer handling, not the grammar, is what differs"""
+    k, n = shape
+    if k == 1:
+        return text.rstrip("\n")                               # no newline at the end of the file
+    if k == 2:
+        return text.rstrip("\n") + " \\"                       # ... and a backslash as the very last byte
+    if k == 3:
+        return text + "\\\n"                                   # a backslash-newline as the last line
+    if k == 4:
+        return text.replace("\n", "\r\n")                       # CRLF line ends
+    if k == 5:
+        return "\ufeff" + text                                  # a byte-order mark
+    if k in (6, 7, 8):
+        # total size a multiple of 4096 (or one less / one more): padding goes into a comment at the end
+        want = {6: 0, 7: 4095, 8: 1}[k]
+        b = len(text.encode("utf-8", "replace")) + 5
+        pad = (want - b) % 4096
+        return text + "/*" + "p" * pad + "*/\n"
+    if k == 9:
+        i = text.find("\n", n % max(1, len(text)))
+        i = len(text) if i < 0 else i
+        return text[:i] + " /* \0 */" + text[i:]               # a NUL byte inside a comment
+    if k == 10:
+        return text + "// no newline after this comment"
+    if k == 11:
+        return text + "\f\v\n\n\n   \t"
+    return "/*" + "L" * (200000 + n) + "*/" + text            # one very long first line
 
 
 def materialise(case, src, wdir):
@@ -457,10 +490,12 @@ def materialise(case, src, wdir):
         pass
     elif case["mutated"]:
         text = mutate(text, Rng(case["mut_seed"]))
+    if case.get("shape"):
+        text = reshape(text, case["shape"])
     d = os.path.join(wdir, "in", os.path.dirname(case["input"]))
     os.makedirs(d, exist_ok=True)
     q = os.path.join(d, os.path.basename(case["input"]))
-    with open(q, "w") as f:
+    with open(q, "w", encoding="utf-8", errors="replace", newline="") as f:
         f.write(text)
     for name, atext, alias in case.get("aux") or []:
         ap = os.path.join(d, name)
@@ -472,9 +507,17 @@ def materialise(case, src, wdir):
     return q, text
 
 
-def _big_stack():
-    import resource
-    resource.setrlimit(resource.RLIMIT_STACK, (4 << 30, resource.RLIM_INFINITY))
+def _child_setup(e, bigstack):
+    def f():
+        if bigstack:
+            import resource
+            resource.setrlimit(resource.RLIMIT_STACK, (4 << 30, resource.RLIM_INFINITY))
+        pr = e.get("proc") or [0, 0o022]
+        if pr[0]:
+            import signal
+            signal.signal(signal.SIGPIPE, signal.SIG_IGN)
+        os.umask(pr[1])
+    return f
 
 
 def run_replica(sdir, reps, stage, e, infile, opts, src, wdir, stats, timeout=None, aux=None, bigstack=False):
@@ -545,7 +588,7 @@ def run_replica(sdir, reps, stage, e, infile, opts, src, wdir, stats, timeout=No
             stdin_arg = os.open(sf, os.O_RDONLY)
             os.lseek(stdin_arg, off, os.SEEK_SET)
     po = subprocess.Popen(argv, cwd=wdir, env=env_vars(e, sdir, stats), stdin=stdin_arg, stdout=subprocess.PIPE, stderr=subprocess.PIPE,
-                          start_new_session=True, pass_fds=extra_fds, preexec_fn=_big_stack if bigstack else None)
+                          start_new_session=True, pass_fds=extra_fds, preexec_fn=_child_setup(e, bigstack))
     if isinstance(stdin_arg, int) and stdin_arg >= 0 and from_stdin:
         os.close(stdin_arg)
     for fd in extra_fds:
@@ -636,6 +679,7 @@ def minimise(case, sdir, reps, src, wdir, fields):
     best = json.loads(json.dumps(case))
     _, text = materialise(best, src, wdir)
     best["text"] = text
+    best["shape"] = None    # (the layout is part of the text from here on)
     # which difference between the two runs matters: same replica? same environment knob by knob?
     if best["a"] != best["b"]:
         c = json.loads(json.dumps(best))
